@@ -20,6 +20,7 @@ TECHNIQUE = 'reference interpreter of the plan\'s fetch / map-reduce steps over 
 RULE = ('cases = generated time-series joins (9 time-condition forms x partition filter x 3 models with 0/1/2 group-by columns x model side x '
         'LIMIT) x random series tables; non-trivial = some partition has more rows before the bound than the window, or ties / NULL times are '
         'present; distinct by (query, data digest)')
+RULE += '; also: the conjunction written flat / right-nested / left-nested / each conjunct parenthesised; a LATEST marker in a fetch query is a violation'
 ASSUMPTIONS = ['rows are identified by a unique id column', 'among equally recent rows any choice is admissible',
                'for an exact time `ts = v` the output filter may be `=` or `>` (the repository\'s own test pins `>`)',
                'partition columns contain no NULLs']
